@@ -158,7 +158,7 @@ def run(chk):
                 "present/absent, empty 2D cells, both calibration formats): observation = (nBytes - written, consumed - "
                 "written) for the block, nBytes of the decoded block, and (nBytes, written, consumed) of every nested "
                 "item; plus the 8 blocks of the BTS capture against their jump-table sizes; compared with the model's "
-                "(size, |enc|, consumed); non-trivial = >=1 item and (a gap or >=2 items)")
+                "(size, |enc|, consumed); also: blocks built, used (sized / encoded / compared / printed), then edited IN PLACE to another content of the same shape and used again; non-trivial = >=1 item and (a gap or >=2 items)")
     corpus = codec.load_corpus("C02")
     check_cases(chk, corpus)
     n = 1500 if chk.tier == "quick" else 25000
@@ -168,6 +168,7 @@ def run(chk):
         cases += mask_cases(chk, 8)
     check_cases(chk, cases)
     check_short_coefficients(chk)
+    codec.check_inplace(chk, "C02", 200 if chk.tier == "quick" else 3000)
     check_capture(chk)
 
 
